@@ -1,7 +1,17 @@
 #!/bin/sh
-# regenerate the translated sources from /repo, build everything that setup_cmd builds, and refuse on any error
+# usage: tools/precommit.sh "commit message" [paths...]   (default paths: everything)
+# Under the self-test lock (no check against a mutated scratch tree is running): regenerate the extracted tables and the translated
+# sources from /repo, build everything that setup_cmd builds, and commit only if the build is clean.
 cd "$(dirname "$0")/.." || exit 2
-python3 -c "import sys; sys.path.insert(0,'tools'); import py2lean; py2lean.write('/repo','lean')" || exit 2
-out=$(tools/lk build HvsrVerif hvsrdrv drv_c07 drv_c10 drv_c14 drv_c15 drv_c19 drv_c20 2>&1)
-echo "$out" | tail -1
-echo "$out" | grep -q 'Build completed successfully' || { echo "$out" | grep -B2 -A12 'error' | head -60; exit 1; }
+msg="$1"; shift
+mkdir -p .cache
+exec flock .cache/selftest.lock sh -c '
+  /venv/bin/python -c "import sys; sys.path.insert(0, \"harness\"); import common; common.regenerate_tables()" || exit 2
+  out=$(tools/lk build HvsrVerif hvsrdrv drv_c07 drv_c10 drv_c14 drv_c15 drv_c19 drv_c20 2>&1)
+  echo "$out" | tail -1
+  echo "$out" | grep -q "Build completed successfully" || { echo "$out" | grep -B2 -A12 "error" | head -60; exit 1; }
+  if [ -n "$0" ]; then
+    if [ $# -gt 0 ]; then git add -- "$@"; else git add -A; fi
+    git commit -qm "$0" && echo committed
+  fi
+' "$msg" "$@"
